@@ -44,9 +44,16 @@ def run(ctx):
     nexe = build.build_prog("c01", ["harness/c01.c", "harness/cpp_shim.cpp", "harness/sysrand.c", "ref/ref.c"], nlib, extra=["-DASCON_NO_STL"], cfg_dep=True)
     for alg in range(3):
         jobs.append((nexe, [alg, "3", 40, 0], "asm-nostl"))
+    # with the system random source not there at all (every request fails with ENOSYS; thorough: also EIO, EPERM): the masked entries still compute the function
+    for be in (("asm", "c64", "c32", "dxor", "generic") if ctx.thorough else ("asm", "c32")):
+        lib = build.build_lib(be)
+        exe = build.build_prog("c01", ["harness/c01.c", "harness/cpp_shim.cpp", "harness/sysrand.c", "ref/ref.c"], lib)
+        for err in ((38, 5, 1) if ctx.thorough else (38,)):
+            for alg in range(3):
+                jobs.append((exe, [alg, "3", 24, 0], "%s-rng-down-%d" % (be, err), {"VP_SYSRAND_DOWN": str(err)}))
     # longest first
     jobs.sort(key=lambda j: -int(j[1][2]) if str(j[1][2]).isdigit() else 0)
-    common.parallel(lambda j: common.run_harness(ctx, j[0], j[1], label=j[2]), jobs)
+    common.parallel(lambda j: common.run_harness(ctx, j[0], j[1], label=j[2], env=j[3] if len(j) > 3 else None), jobs)
     common.align_jobs(ctx, jobs, lambda j: j[2] in ("asm", "c64", "c32") and str(j[1][1]) == "3" and len(j[1]) == 4)
     common.mid_lengths(ctx, ["aead:0", "aead:1", "aead:2", "aead-ad:0", "aead-ad:1", "aead-ad:2", "inc:0", "inc:1", "inc:2", "masked:0", "masked:1", "masked:2"], ("asm", "c64", "c32", "dxor", "generic") if ctx.thorough else ("asm", "c32"))
     if ctx.thorough:
